@@ -1,4 +1,5 @@
 """C04 - read-only queries and analyses are pure and independent of query history (model-based histories)."""
+import copy
 import json
 import math
 
@@ -207,6 +208,12 @@ def run_op(world, op):
     """Execute one read-only operation; returns a JSON-able structure."""
     name = op["op"]
     iso = world[op.get("iso", "A")]
+    kw = {k: (tuple(v) if isinstance(v, list) and k.endswith("limits") else copy.deepcopy(v)) for k, v in (op.get("kw") or {}).items()}
+    for k, v in kw.items():
+        if isinstance(v, dict) and "@frac" in v:
+            isos = [world["A"], world["B"]] if name == "isosteric_enthalpy" else [iso]
+            top = min(float(np.max(i.loading(branch="ads"))) for i in isos)
+            kw[k] = [f * top for f in v["@frac"]]
     fill = op.get("fill")
     fill = tuple(fill) if isinstance(fill, list) else fill
     if name == "pressure":
@@ -233,37 +240,37 @@ def run_op(world, op):
     if name == "str":
         return str(iso)
     if name == "area_BET":
-        return pgc.area_BET(iso, branch=op["branch"])
+        return pgc.area_BET(iso, branch=op["branch"], **kw)
     if name == "area_langmuir":
         return pgc.area_langmuir(iso, branch=op["branch"], p_limits=(0.05, 0.6))
     if name == "t_plot":
-        return pgc.t_plot(iso, thickness_model=op["thickness"], branch=op["branch"], t_limits=(0.3, 0.7))
+        return pgc.t_plot(iso, thickness_model=op["thickness"], branch=op["branch"], **{"t_limits": (0.3, 0.7), **kw})
     if name == "alpha_s":
         return pgc.alpha_s(iso, reference_isotherm=world["B" if op.get("iso", "A") == "A" else "A"], branch=op["branch"],
                            t_limits=(0.3, 1.2))
     if name == "dr_plot":
-        return pgc.dr_plot(iso, branch=op["branch"], p_limits=(0.0, 0.1))
+        return pgc.dr_plot(iso, branch=op["branch"], **{"p_limits": (0.0, 0.1), **kw})
     if name == "da_plot":
         return pgc.da_plot(iso, exp=op.get("exp"), branch=op["branch"], p_limits=(0.0, 0.1))
     if name == "psd_mesoporous":
         return pgc.psd_mesoporous(iso, psd_model=op["model"], pore_geometry="cylinder", branch=op["branch"],
-                                  thickness_model=op["thickness"])
+                                  thickness_model=op["thickness"], **kw)
     if name == "psd_microporous":
         return pgc.psd_microporous(iso, psd_model=op.get("model", "HK"), pore_geometry=op.get("geometry", "slit"),
-                                   branch=op["branch"], p_limits=(0.0, 0.02 if op.get("geometry", "slit") != "slit" else 0.1))
+                                   branch=op["branch"], p_limits=(0.0, 0.02 if op.get("geometry", "slit") != "slit" else 0.1), **kw)
     if name == "psd_dft":
-        return pgc.psd_dft(iso, branch=op["branch"], bspline_order=op.get("order", 2))
+        return pgc.psd_dft(iso, branch=op["branch"], bspline_order=op.get("order", 2), **kw)
     if name == "initial_henry_slope":
-        return pgc.initial_henry_slope(iso, branch=op["branch"])
+        return pgc.initial_henry_slope(iso, branch=op["branch"], **kw)
     if name == "initial_henry_virial":
         return pgc.initial_henry_virial(iso)
     if name == "initial_enthalpy_point":
         return pgc.initial_enthalpy_point(iso, "enthalpy", branch=op["branch"])
     if name == "isosteric_enthalpy":
         order = [world["A"], world["B"]] if op.get("order", 0) == 0 else [world["B"], world["A"]]
-        return pgc.isosteric_enthalpy(order, branch=op["branch"])
+        return pgc.isosteric_enthalpy(order, branch=op["branch"], **kw)
     if name == "whittaker":
-        return pgc.enthalpy_sorption_whittaker(iso, model=op["model"])
+        return pgc.enthalpy_sorption_whittaker(iso, model=op["model"], **kw)
     if name == "model_iso":
         m = pgm.model_iso(iso, branch=op["branch"], model=op["model"])
         return {"params": m.model.params, "rmse": m.model.rmse, "id": m.iso_id}
@@ -334,6 +341,25 @@ def outcome(world, op):
 _BR = ["ads", "des"]
 _KINDS = ["linear", "linear", "nearest", "slinear", "quadratic"]
 _FILLS = [None, None, None, 0.0, 1.5, [0.0, 2.5], "extrapolate"]
+_CUSTOM_ADSORBENT = {"molecular_diameter": 0.31, "polarizability": 1.2e-3, "magnetic_susceptibility": 1.1e-7, "surface_density": 2.9e19}
+_CUSTOM_ADSORBATE = {"molecular_diameter": 0.32, "polarizability": 1.5e-3, "magnetic_susceptibility": 3.1e-8, "surface_density": 6.5e18,
+                     "liquid_density": 0.81, "adsorbate_molar_mass": 28.0}
+_KW = {  # documented keyword arguments that callers usually leave at their defaults (values are JSON-able)
+    "area_BET": [{"p_limits": [0.05, 0.3]}, {"p_limits": [0.1, 0.5]}],
+    "dr_plot": [{"p_limits": [0.0, 0.05]}, {"p_limits": [1e-3, 0.2]}],
+    "t_plot": [{"t_limits": [0.35, 0.6]}, {"t_limits": [0.4, 0.9]}],
+    "psd_mesoporous": [{"kelvin_model": "Kelvin-KJS"}, {"meniscus_geometry": "hemispherical"}, {"meniscus_geometry": "cylindrical"},
+                       {"p_limits": [0.2, 0.9]}, {"p_limits": [0.3, 0.95], "kelvin_model": "Kelvin-KJS"}],
+    "psd_microporous": [{"material_model": "AlSiOxideIon"}, {"material_model": "AlPhOxideIon"}, {"material_model": _CUSTOM_ADSORBENT},
+                        {"adsorbate_model": _CUSTOM_ADSORBATE}, {"material_model": _CUSTOM_ADSORBENT, "adsorbate_model": _CUSTOM_ADSORBATE}],
+    "psd_dft": [{"kernel_units": {"loading_unit": "cm3(STP)"}}, {"kernel_units": {"material_unit": "kg"}}, {"p_limits": [0.0, 0.5]},
+                {"kernel_units": {"loading_basis": "molar", "loading_unit": "mol", "material_basis": "mass", "material_unit": "kg",
+                                  "pressure_mode": "relative", "pressure_unit": None}}],
+    "initial_henry_slope": [{"max_adjrms": 0.05}, {"p_limits": [0.0, 0.2]}, {"l_limits": [0.0, 2.0]}],
+    # "@frac": fractions of the largest adsorption loading of the isotherms involved (resolved in run_op)
+    "isosteric_enthalpy": [{"loading_points": {"@frac": [0.3, 0.45, 0.6]}}, {"loading_points": {"@frac": [0.5, 0.35]}}],
+    "whittaker": [{"loading": {"@frac": [0.2, 0.4, 0.6]}}, {"loading": {"@frac": [0.7, 0.15]}}],
+}
 
 
 def _op(focus=None):
@@ -345,6 +371,12 @@ def _op(focus=None):
         lambda i, b, k, f, w, qq: {"op": name, "iso": i, "branch": b, "kind": k, "fill": f, "where": w, "q": qq},
         iso, br, st.sampled_from(_KINDS), st.sampled_from(_FILLS), st.sampled_from(["inside", "inside", "below", "above"]), q)
     simple = lambda name: st.builds(lambda i, b: {"op": name, "iso": i, "branch": b}, iso, br)  # noqa
+
+    def with_kw(base, variants):
+        """Non-default keyword arguments (half of the draws keep the defaults): a call with one variant must not change what a
+        later call with another (or none) returns."""
+        return st.builds(lambda o, k: dict(o, kw=k) if k else o, base, st.sampled_from([None] * len(variants) + variants))
+
     cat = {
         "pressure": st.builds(lambda i, b, r: {"op": "pressure", "iso": i, "branch": b, "req": r}, iso,
                               st.sampled_from([None, "ads", "des", "all"]), req),
@@ -358,28 +390,28 @@ def _op(focus=None):
         "to_csv": st.builds(lambda i: {"op": "to_csv", "iso": i}, st.sampled_from(["A", "B", "M1"])),
         "to_dict": st.builds(lambda i: {"op": "to_dict", "iso": i}, st.sampled_from(["A", "B", "M1"])),
         "str": st.builds(lambda i: {"op": "str", "iso": i}, st.sampled_from(["A", "M1"])),
-        "area_BET": simple("area_BET"), "area_langmuir": simple("area_langmuir"),
-        "t_plot": st.builds(lambda i, b, t: {"op": "t_plot", "iso": i, "branch": b, "thickness": t}, iso, br,
+        "area_BET": with_kw(simple("area_BET"), _KW["area_BET"]), "area_langmuir": simple("area_langmuir"),
+        "t_plot": with_kw(st.builds(lambda i, b, t: {"op": "t_plot", "iso": i, "branch": b, "thickness": t}, iso, br,
                             st.sampled_from(["Harkins/Jura", "Halsey", "SiO2 Jaroniec/Kruk/Olivier", "carbon black Kruk/Jaroniec/Gadkaree",
-                                             "SiO2 Jaroniec/Kruk/Olivier", "carbon black Kruk/Jaroniec/Gadkaree"])),
-        "alpha_s": simple("alpha_s"), "dr_plot": simple("dr_plot"),
+                                             "SiO2 Jaroniec/Kruk/Olivier", "carbon black Kruk/Jaroniec/Gadkaree"])), _KW["t_plot"]),
+        "alpha_s": simple("alpha_s"), "dr_plot": with_kw(simple("dr_plot"), _KW["dr_plot"]),
         "da_plot": st.builds(lambda i, b, e: {"op": "da_plot", "iso": i, "branch": b, "exp": e}, iso, br, st.sampled_from([None, 2.0, 1.5])),
-        "psd_mesoporous": st.builds(lambda i, b, m, t: {"op": "psd_mesoporous", "iso": i, "branch": b, "model": m, "thickness": t},
+        "psd_mesoporous": with_kw(st.builds(lambda i, b, m, t: {"op": "psd_mesoporous", "iso": i, "branch": b, "model": m, "thickness": t},
                                     iso, br, st.sampled_from(["pygaps-DH", "BJH", "DH"]),
                                     st.sampled_from(["Harkins/Jura", "Halsey", "SiO2 Jaroniec/Kruk/Olivier",
                                                      "carbon black Kruk/Jaroniec/Gadkaree", "SiO2 Jaroniec/Kruk/Olivier",
-                                                     "carbon black Kruk/Jaroniec/Gadkaree"])),
-        "psd_microporous": st.builds(lambda i, b, m, g: {"op": "psd_microporous", "iso": i, "branch": b, "model": m, "geometry": g},
+                                                     "carbon black Kruk/Jaroniec/Gadkaree"])), _KW["psd_mesoporous"]),
+        "psd_microporous": with_kw(st.builds(lambda i, b, m, g: {"op": "psd_microporous", "iso": i, "branch": b, "model": m, "geometry": g},
                                      iso, br, st.sampled_from(["HK", "HK", "HK-CY", "RY", "RY-CY"]),
-                                     st.sampled_from(["slit", "slit", "slit", "cylinder", "sphere"])),
-        "psd_micro_curved": st.builds(lambda i, m, g: {"op": "psd_microporous", "iso": i, "branch": "ads", "model": m, "geometry": g},
-                                      iso, st.sampled_from(["HK", "HK-CY", "RY", "RY-CY"]), st.sampled_from(["cylinder", "sphere"])),
-        "psd_dft": st.builds(lambda b, o: {"op": "psd_dft", "iso": "A", "branch": b, "order": o}, br, st.sampled_from([0, 2])),
-        "initial_henry_slope": simple("initial_henry_slope"),
+                                     st.sampled_from(["slit", "slit", "slit", "cylinder", "sphere"])), _KW["psd_microporous"]),
+        "psd_micro_curved": with_kw(st.builds(lambda i, m, g: {"op": "psd_microporous", "iso": i, "branch": "ads", "model": m, "geometry": g},
+                                      iso, st.sampled_from(["HK", "HK-CY", "RY", "RY-CY"]), st.sampled_from(["cylinder", "sphere"])), _KW["psd_microporous"]),
+        "psd_dft": with_kw(st.builds(lambda b, o: {"op": "psd_dft", "iso": "A", "branch": b, "order": o}, br, st.sampled_from([0, 2])), _KW["psd_dft"]),
+        "initial_henry_slope": with_kw(simple("initial_henry_slope"), _KW["initial_henry_slope"]),
         "initial_henry_virial": st.builds(lambda i: {"op": "initial_henry_virial", "iso": i}, iso),
         "initial_enthalpy_point": simple("initial_enthalpy_point"),
-        "isosteric_enthalpy": st.builds(lambda b, o: {"op": "isosteric_enthalpy", "branch": b, "order": o}, st.just("ads"), st.integers(0, 1)),
-        "whittaker": st.builds(lambda i, m: {"op": "whittaker", "iso": i, "model": m}, iso, st.sampled_from(["Langmuir", "Toth"])),
+        "isosteric_enthalpy": with_kw(st.builds(lambda b, o: {"op": "isosteric_enthalpy", "branch": b, "order": o}, st.just("ads"), st.integers(0, 1)), _KW["isosteric_enthalpy"]),
+        "whittaker": with_kw(st.builds(lambda i, m: {"op": "whittaker", "iso": i, "model": m}, iso, st.sampled_from(["Langmuir", "Toth"])), _KW["whittaker"]),
         "model_iso": st.builds(lambda i, b, m: {"op": "model_iso", "iso": i, "branch": b, "model": m}, iso, br,
                                st.sampled_from(["Langmuir", "Henry", "DSLangmuir", "Toth"])),
         "iast_point": st.builds(lambda a, b: {"op": "iast_point", "p1": round(a, 4), "p2": round(b, 4)}, st.floats(0.05, 3), st.floats(0.05, 3)),
@@ -393,7 +425,7 @@ def _op(focus=None):
         weights = ["loading_at"] * 4 + ["pressure_at"] * 3 + ["spreading_pressure_at"] * 3 + ["loading_at_units", "pressure", "to_json"]
         return st.sampled_from(weights).flatmap(lambda k: cat[k])
     if focus == "caches":
-        weights = (["t_plot"] * 6 + ["psd_mesoporous"] * 4 + ["adsorbate_props"] * 3 + ["psd_micro_curved"] * 4 + ["psd_dft", "area_BET", "whittaker",
+        weights = (["t_plot"] * 6 + ["psd_mesoporous"] * 4 + ["adsorbate_props"] * 3 + ["psd_micro_curved"] * 4 + ["psd_dft"] * 4 + ["area_BET", "whittaker",
                    "isosteric_enthalpy", "alpha_s", "loading", "pressure", "iast_point_mixed", "model_accessors"])
         return st.sampled_from(weights).flatmap(lambda k: cat[k])
     weights = (["loading_at"] * 5 + ["pressure_at"] * 4 + ["spreading_pressure_at"] * 5 + ["pressure", "loading"] * 2 +
@@ -411,7 +443,7 @@ def strat_history(focus=None, min_ops=2, max_ops=10):
 
 def _argclass(op):
     return [op.get("op"), op.get("iso"), op.get("branch"), op.get("kind"), json.dumps(op.get("fill")), op.get("where"),
-            json.dumps(op.get("req")), op.get("model"), op.get("thickness")]
+            json.dumps(op.get("req")), op.get("model"), op.get("thickness"), json.dumps(op.get("kw"), sort_keys=True)]
 
 
 def check_history(desc, ctx):
@@ -460,7 +492,8 @@ def check_history(desc, ctx):
             analysis_after_interp = True
     shared_state_ops = [o for o in desc["ops"] if o["op"] in ("adsorbate_props", "psd_mesoporous", "whittaker", "isosteric_enthalpy",
                                                                "area_BET", "t_plot", "alpha_s", "psd_dft", "psd_microporous")]
-    shared_keys = {(o["op"], o.get("iso"), o.get("thickness"), o.get("model"), o.get("geometry")) for o in shared_state_ops}
+    shared_keys = {(o["op"], o.get("iso"), o.get("thickness"), o.get("model"), o.get("geometry"), json.dumps(o.get("kw"), sort_keys=True))
+                   for o in shared_state_ops}
     if cache_key_changes or analysis_after_interp or len(shared_keys) >= 2:
         ctx.nt([desc["units"], [_argclass(o) for o in desc["ops"]]], desc)
 
